@@ -7,10 +7,14 @@
       vec, arr ([T;N]), slc ([T] through &[T]), deq<r> (VecDeque whose ring head sits at offset r),
       nd (Array1), ndv1 / nd2 / nd3 (ArrayView1 step 1 / 2 / 3), ndrev / ndm2 (step -1 / -2),
       arc (Arc<Vec>), opt (OptIter over Vec<Option<i32>>)
-    Quick: N in {0,1,2} and {3}; deque offsets 0 and 1; steps 1, 2, -1.
+    Quick: N in 0..=3 — light containers grouped {0,1,2} + {3}; VecDeque / ndarray one harness per N (several heavy
+    instances in one harness cost CBMC more than the sum of the parts); the step-1 view only at N = 3 (same impl
+    macro as Array1); deque offsets 0 and 1; steps 1, 2, -1.
     Thorough adds N = 4, deque offsets 2 and 3, steps 3 and -2.
-(b) end-to-end witnesses (bodies in c07.rs), N = 3 quick (ndarray / VecDeque pairs N = 2 where measured too slow),
-    N = 4 thorough.
+    The reversed view's try_as_slice (known defect: memory-order slice) is isolated in c07_tas_ndrev_* so that its
+    counterexample replay stays cheap and the c07_acc_ndrev_* harnesses still decide everything else.
+(b) end-to-end witnesses (bodies in c07.rs): N = 2 quick (measured: 45-65 s each; N = 3: 80-160 s), N = 3 / 4 thorough;
+    ts_vmin, rolling_apply Some(out), vshift Vec-vs-Array1 and the Vec-vs-Vec out-buffer case are thorough only.
 """
 import os
 OUT = os.path.join(os.path.dirname(os.path.abspath(__file__)), "..", "kani", "src", "c07_gen.rs")
@@ -110,7 +114,7 @@ E2E = [
     ("vshift_vec_nd", "e2e_vshift_vec_nd", [], [2, 3]),        # 325 s measured at N = 2
     ("agg_arr_deq_ndrev", "e2e_agg", [2], [3, 4]),
     ("agg_nd2_arc_nd", "e2e_agg2", [], [2, 3]),
-    ("out_tsvsum_vec", "e2e_out_tsvsum_vec", [2], [3, 4]),
+    ("out_tsvsum_vec", "e2e_out_tsvsum_vec", [], [2, 3, 4]),
     ("out_tsvsum_deq", "e2e_out_tsvsum_deq", [2], [3]),
     ("out_tsvsum_nd", "e2e_out_tsvsum_nd", [2], [3]),
     ("out_apply", "e2e_out_apply", [], [2, 3]),
